@@ -30,8 +30,10 @@ type repair struct {
 }
 
 var repairs = []repair{
-	{"G", "ops-right-operand-swallows-rest", false, false, func(o *PrintOpts) { o.Tree = "py" }, func(f *features) bool { return f.swallow }},
+	{"G", "ops-right-operand-swallows-rest", false, false, func(o *PrintOpts) { o.TreeSwallow = true }, func(f *features) bool { return f.swallow }},
+	{"L", "lazy-operator-rechecks-truthiness", false, false, func(o *PrintOpts) { o.TreeLazy = true }, func(f *features) bool { return f.lazyTight }},
 	{"M", "int-mod-go-sign", false, false, func(o *PrintOpts) { o.Mod = true }, func(f *features) bool { return f.mods > 0 }},
+	{"D", "floordiv-float64-detour", false, false, func(o *PrintOpts) { o.FloorDiv = true }, func(f *features) bool { return f.fdivs > 0 }},
 	{"A", "list-add-appends-in-place", false, false, func(o *PrintOpts) { o.AddCopy = true }, func(f *features) bool { return f.adds > 0 || f.augs > 0 }},
 	{"S", "slice-shares-backing-array", false, false, func(o *PrintOpts) { o.SliceCopy = true }, func(f *features) bool { return f.slices > 0 }},
 	{"SR", "sorted-reversed-in-place", false, false, func(o *PrintOpts) { o.SortCopy = true }, func(f *features) bool { return f.sorts > 0 }},
@@ -201,12 +203,9 @@ func (h *harness) runOp(op string) {
 		out := h.runAsp(mode, src)
 		ft := featuresOf(prog)
 		if hugeInt.MatchString(out) {
-			// beyond 2^53 the float64 detour of `//` is no longer exact (a zero divisor yields the minimum int);
-			// the model does not follow it there.  Still subject to the direct oracle.
-			r.Count("outcome:int-beyond-2^53-not-modelled")
-		} else {
-			r.Emit(op, out, out != "ERR" && ft.size >= 8)
+			r.Count("outcome:int-beyond-2^53")
 		}
+		r.Emit(op, out, out != "ERR" && ft.size >= 8)
 		h.oracle(op, prog, mode, src, out, ft)
 	case len(f) == 2 && f[0] == "py" || len(f) == 3 && f[0] == "py":
 		rest := strings.TrimPrefix(op, "py ")
